@@ -103,6 +103,9 @@ pub enum Fix {
 }
 
 pub struct Gen<'c> {
+    /// the examinee of the match being generated when it is an assignable place: a guard may assign to it
+    /// (the match examines the value it had; later arms bind what was there, not what the guard stored)
+    guard_mut: Option<(Place, Ty)>,
     c: Choices<'c>,
     l: Choices<'c>,
     pub prog: Program,
@@ -167,6 +170,7 @@ impl<'c> Gen<'c> {
             c: Choices::new(structure),
             l: Choices::new(literals),
             prog: Program::default(),
+            guard_mut: None,
             prof,
             scopes: Vec::new(),
             cur_fn: 0,
@@ -1342,8 +1346,13 @@ impl<'c> Gen<'c> {
             self.collect_enum_places(&v.ty, Place { var: v.name.clone(), fields: vec![] }, 2, &mut ps);
             cands.extend(ps);
         }
+        let mut scrut_place: Option<(Place, Ty)> = None;
         let (scrut, sty) = if !cands.is_empty() && self.c.chance(200) {
             let (p, t) = cands[self.c.below(cands.len())].clone();
+            let assignable = self.all_vars().iter().any(|v| v.name == p.var && v.assignable && v.concrete);
+            if assignable && !self.in_const && !mentions_anon(&t) && !matches!(t, Ty::Param(_)) {
+                scrut_place = Some((p.clone(), t.clone()));
+            }
             (Self::place_expr(&p), t)
         } else {
             // Option of a scalar, built on the spot
@@ -1365,6 +1374,7 @@ impl<'c> Gen<'c> {
             return None;
         }
         let mut arms = Vec::new();
+        let outer_guard_mut = std::mem::replace(&mut self.guard_mut, scrut_place);
         let use_default = variants.len() > 1 && self.c.chance(60);
         let mut order: Vec<usize> = (0..variants.len()).collect();
         self.shuffle(&mut order);
@@ -1414,6 +1424,7 @@ impl<'c> Gen<'c> {
             let arm = self.arm(None, false, ty, d, fix);
             arms.push(arm);
         }
+        self.guard_mut = outer_guard_mut;
         Some(Expr::Match(Box::new(scrut), arms))
     }
 
@@ -1433,7 +1444,17 @@ impl<'c> Gen<'c> {
                 // keep owning temporaries out of guards (known finding C03-F2)
                 self.prof.owning = false;
             }
-            let g = self.guard_expr(d);
+            let mut g = self.guard_expr(d);
+            // a guard that first stores another value in the place the match examines: the arms that
+            // follow a failed guard still see (and bind) the value the match was entered with
+            if let Some((p, t)) = self.guard_mut.clone() {
+                if self.c.chance(50) && self.spend(3) {
+                    let inner = self.guard_mut.take();
+                    let newv = self.construct(&t, Fix::Direct, 1);
+                    self.guard_mut = inner;
+                    g = Expr::Block(Block { stmts: vec![Stmt::Expr(Expr::Assign(p, Box::new(newv)))], tail: Some(Box::new(g)) });
+                }
+            }
             self.prof.owning = saved;
             Some(g)
         } else {
